@@ -139,7 +139,9 @@ class Opaque:
 
 ENUMS = {'Option': ['None', 'Some'], 'Result': ['Ok', 'Err'], 'ControlFlow': ['Continue', 'Break'],
          'Poll': ['Ready', 'Pending'], 'Ordering': ['Relaxed', 'Release', 'Acquire', 'AcqRel', 'SeqCst'],
-         'AssertKind': ['Eq', 'Ne', 'Match'], 'Cow': ['Borrowed', 'Owned']}
+         'AssertKind': ['Eq', 'Ne', 'Match'], 'Cow': ['Borrowed', 'Owned'],
+         # log crate: Level has explicit discriminants starting at 1 (placeholder keeps index == discriminant)
+         'Level': ['__unused0', 'Error', 'Warn', 'Info', 'Debug', 'Trace'], 'LevelFilter': ['Off', 'Error', 'Warn', 'Info', 'Debug', 'Trace']}
 STRUCTS = {}
 UNIT_STRUCTS = set()
 
@@ -232,6 +234,21 @@ def load_source_types(root):
             STRUCTS.setdefault(m.group(1), []).append(fs)
         for m in re.finditer(r'\bstruct (\w+);', src):
             UNIT_STRUCTS.add(m.group(1))
+
+
+def load_std_enums():
+    import glob, os
+    for pat in ('~/.rustup/toolchains/nightly-*/lib/rustlib/src/rust/library/core/src/io/error.rs',
+                '~/.rustup/toolchains/nightly-*/lib/rustlib/src/rust/library/std/src/io/error.rs'):
+        for f in sorted(glob.glob(os.path.expanduser(pat))):
+            src = _strip_rust(open(f).read())
+            m = re.search(r'\bpub enum ErrorKind\s*\{', src)
+            if m:
+                k = _balanced(src, m.end() - 1)
+                vs = [re.match(r'\s*(\w+)', x).group(1) for x in M.split_top(src[m.end():k]) if re.match(r'\s*(\w+)', x)]
+                if 'BrokenPipe' in vs:
+                    ENUMS['ErrorKind'] = vs
+                    return
 
 
 NONE = lambda: Adt('Option', 0, [])
@@ -609,6 +626,8 @@ class Machine:
             if seg in UNIT_STRUCTS or seg in ('PhantomData', 'Global', 'RandomState'):
                 return Adt(seg, 0, [])
             return ('item', t)
+        if name.endswith('log::STATIC_MAX_LEVEL') or name == 'STATIC_MAX_LEVEL':
+            return Adt('LevelFilter', 5, [])
         if name in self.const_cache:
             return self.const_cache[name]
         b = self.resolve_const(name)
@@ -686,7 +705,7 @@ class Machine:
         if k == 'adt':
             path = rv[1]
             args = [self.operand(fr, o) for o in rv[2]]
-            return self.make_adt(path, args)
+            return self.make_adt(path, args, dest_ty)
         if k == 'struct':
             name = rv[1]
             if name.startswith('{closure') or name.startswith('{coroutine'):
@@ -734,8 +753,13 @@ class Machine:
             return v
         raise Unsupported('rvalue ' + k)
 
-    def make_adt(self, path, args):
+    def make_adt(self, path, args, dest_ty=None):
         segs = [x for x in strip_generics_path(path).split('::') if x]
+        if len(segs) == 1 and dest_ty:
+            # MIR prints variants of some foreign enums without their path (`_1 = BrokenPipe;`): the local's type decides
+            en = strip_generics_path(dest_ty).split('::')[-1].strip()
+            if en in ENUMS and segs[0] in ENUMS[en]:
+                return Adt(en, ENUMS[en].index(segs[0]), args)
         if len(segs) >= 2 and segs[-2] in ENUMS:
             if segs[-1] not in ENUMS[segs[-2]]:
                 raise Unsupported('unknown variant ' + path)
@@ -747,9 +771,7 @@ class Machine:
             return Adt(nm, 0, args)
         if len(segs) >= 2 and segs[-2][:1].isupper() and segs[-1][:1].isupper():
             raise Unsupported('unknown enum for aggregate ' + path)
-        if not args and nm[:1].isupper():
-            return Adt(nm, 0, [])
-        raise Unsupported('aggregate ' + path)
+        raise Unsupported('aggregate %s (type %s)' % (path, dest_ty))
 
     def binop(self, op, a, b, dest_ty=None):
         if isinstance(a, SymVal) or isinstance(b, SymVal):
